@@ -11,6 +11,7 @@ import (
 
 type rsVerdict struct {
 	c09, c10, c11, c16 string // "" = clause holds on this trace
+	damaged            string // a client message that is not what its sender encoded (concerns every property: the request of a call, the acknowledgement of a message)
 	warnings           int
 }
 
@@ -99,7 +100,10 @@ func rsJudgeTrace(trace string, startUnix, endUnix int64) rsVerdict {
 		case "P":
 			fail(&v.c16, "an unencrypted frame was sent on a resumed session (new key exchange)")
 		case "X":
+			// the peer checks every client message byte for byte: a frame it cannot open, or a request /
+			// acknowledgement that is not exactly what its sender encoded
 			fail(&v.c10, "the server could not read a client frame: %s", e)
+			fail(&v.damaged, "a message reached the server damaged: %s", e)
 		case "S":
 			mid, _ := strconv.ParseUint(p[2], 10, 64)
 			seq, _ := strconv.ParseUint(p[3], 10, 64)
@@ -140,6 +144,10 @@ func rsJudgeTrace(trace string, startUnix, endUnix int64) rsVerdict {
 				}
 				reqs[mid] = &req{caller: c, open: true}
 				lastOf[c] = mid
+			case "o":
+				// in these scenarios the client writes requests (ping) and acknowledgements, nothing else
+				fail(&v.c10, "the client wrote message %d with constructor %s: neither a request of a caller nor a msgs_ack", mid, p[len(p)-1])
+				fail(&v.damaged, "the client wrote message %d with constructor %s: neither a request of a caller nor a msgs_ack", mid, p[len(p)-1])
 			case "k":
 				if seq%2 != 0 {
 					fail(&v.c10, "acknowledgement %d carries the odd seq_no %d", mid, seq)
@@ -236,7 +244,7 @@ func rsExec(prop string) func(op []string) string {
 				tr = op[1]
 			}
 			v := rsJudgeTrace(tr, 0, 0)
-			for _, c := range []string{v.c09, v.c10, v.c11, v.c16} {
+			for _, c := range []string{v.c09, v.c10, v.c11, v.c16, v.damaged} {
 				if c != "" {
 					return "bad:" + strings.ReplaceAll(c, " ", "_")
 				}
@@ -271,10 +279,19 @@ func rsJudge(prop string) func(op []string, out string) string {
 			return "the harness panicked: " + out
 		}
 		note, t0, t1, trace := rsParseRun(out)
-		if note != "-" {
-			return "the scenario could not be completed: " + note
-		}
 		v := rsJudgeTrace(trace, t0, t1)
+		if note != "-" {
+			why := "the scenario could not be completed: " + note
+			if v.damaged != "" {
+				why += " (" + v.damaged + ")"
+			} else if strings.Contains(v.c11, "sent twice") {
+				why += " (" + v.c11 + ")"
+			}
+			return why
+		}
+		if v.damaged != "" {
+			return v.damaged
+		}
 		switch prop {
 		case "c09":
 			return v.c09
